@@ -1,0 +1,64 @@
+//go:build verif
+
+package random
+
+// Contracts for the deductive verifier in /verif (govc); comments only. Property C13.
+//
+// Representation invariant of a Random selector: every entry of the weighted cycle is an index into the
+// member list, the member list is small enough for the weight computation, and the map exists.
+//@ pred rdInv(r) = r != nil && r.mapValues != nil && r.rand != nil && len(r.endpoints) <= 16777216 && len(r.staticWeightRouterCache) <= 1694498817 && (forall j {r.staticWeightRouterCache[j]} :: (0 <= j && j < len(r.staticWeightRouterCache)) ==> (0 <= r.staticWeightRouterCache[j] && r.staticWeightRouterCache[j] < len(r.endpoints)))
+//
+//@ func New
+//@   allocates
+//@   ensures [C13] rdInv(result) && fresh(result) && len(result.endpoints) == 0 && result.enableWeight == enableWeight
+//@   safety [C13]
+//
+//@ func (*Random).Select
+//@   requires rdInv(r)
+//@   ensures [C13] (len(r.endpoints) == 0) == (result1 != nil)
+//@   ensures [C13] len(r.endpoints) > 0 ==> (exists j :: 0 <= j && j < len(r.endpoints) && result0 == r.endpoints[j])
+//@   safety [C13]
+//
+//@ func (*Random).reBuildLocked
+//@   requires r != nil && r.mapValues != nil && r.rand != nil && len(r.endpoints) <= 16777216
+//@   modifies r.staticWeightRouterCache
+//@   allocates
+//@   ensures [C13] rdInv(r)
+//@   safety [C13]
+//
+//@ func (*Random).addLocked
+//@   requires r != nil && r.mapValues != nil && len(r.endpoints) < 16777216 && (cap(r.endpoints) == 0 || allocated(r.endpoints))
+//@   modifies r.endpoints, elems(r.endpoints), mapcells(r.mapValues)
+//@   allocates
+//@   ensures [C13] err != nil ==> (len(r.endpoints) == old(len(r.endpoints)) && hdr(r.endpoints) == old(hdr(r.endpoints)))
+//@   ensures [C13] err == nil ==> (len(r.endpoints) == old(len(r.endpoints)) + 1 && r.endpoints[old(len(r.endpoints))] == ep)
+//@   ensures [C13] objof(r.endpoints) == old(objof(r.endpoints)) || fresh(r.endpoints)
+//@   ensures r.mapValues != nil
+//@   safety [C13]
+//
+//@ func (*Random).Add
+//@   requires rdInv(r) && len(r.endpoints) < 16777216 && (cap(r.endpoints) == 0 || allocated(r.endpoints))
+//@   modifies r.endpoints, elems(r.endpoints), mapcells(r.mapValues), r.staticWeightRouterCache
+//@   allocates
+//@   ensures [C13] result == nil ==> rdInv(r)
+//@   safety [C13]
+//
+//@ func (*Random).Refresh
+//@   requires r != nil && r.rand != nil && len(eps) <= 16777216
+//@   modifies r.mapValues, r.endpoints, r.staticWeightRouterCache
+//@   allocates
+//@   ensures [C13] rdInv(r)
+//@   ensures [C13] cap(r.endpoints) == 0 || fresh(r.endpoints)
+//@   ensures [C13] len(r.endpoints) <= len(eps)
+//@   loop 0 invariant r != nil && r.rand != nil && r.mapValues != nil && fresh(r.mapValues) && len(r.endpoints) <= rangeindex + 1 && (cap(r.endpoints) == 0 || fresh(r.endpoints)) && (objof(r.endpoints) == objof(atentry(0, r.endpoints)) || loopfresh(0, r.endpoints))
+//@   loop 0 modifies r.endpoints, elems(r.endpoints), mapcells(r.mapValues)
+//@   safety [C13]
+//
+//@ func (*Random).Remove
+//@   requires rdInv(r) && (cap(r.endpoints) == 0 || allocated(r.endpoints))
+//@   modifies r.endpoints, elems(r.endpoints), mapcells(r.mapValues), r.staticWeightRouterCache
+//@   allocates
+//@   ensures [C13] rdInv(r)
+//@   ensures [C13] len(r.endpoints) <= old(len(r.endpoints))
+//@   loop 0 invariant r != nil && r.rand != nil && r.mapValues != nil && hdr(r.endpoints) == old(hdr(r.endpoints))
+//@   safety [C13]
